@@ -597,4 +597,472 @@ theorem recip_wf (n : Nat) (x P : PB) (hx : WF n x) (h : PBox.recip n x = .ok P)
       have hl : x.left[x.right.length - 1 - i]'(by omega) < 0 := lt_of_le_of_lt hle hr
       exact (one_div_le_one_div_of_neg hr hl).mpr hle
 
+/-! ## multiplication under the Frechet rule (sign routing, Balch product, imposition) -/
+
+def NonNeg (p : PB) : Prop := (∀ v ∈ p.left, 0 ≤ v) ∧ (∀ v ∈ p.right, 0 ≤ v)
+
+theorem bind_ok_inv {α β : Type} {x : Except Err α} {f : α → Except Err β} {b : β}
+    (h : (x >>= f) = .ok b) : ∃ a, x = .ok a ∧ f a = .ok b := by
+  cases x with
+  | error e => cases h
+  | ok a => exact ⟨a, rfl, h⟩
+
+theorem mk_pair_wfs {n : Nat} {lists : Bool} {pr : List Rat × List Rat} {P : PB}
+    (h : (match pr with | (l, r) => mk n lists l r) = .ok P) : WFS n P := by
+  obtain ⟨l, r⟩ := pr
+  exact mk_wfs h
+
+theorem classicFrechet_wfs {n : Nat} {op : Rat → Rat → Rat} {x y P : PB}
+    (h : classicFrechet n op x y = .ok P) : WFS n P := by
+  unfold classicFrechet at h; exact mk_pair_wfs (pr := frechetOp op x y) (lists := false) h
+
+theorem numberOp_wfs {n : Nat} {f : Rat → Rat → Rat} {x P : PB} {c : Rat}
+    (h : numberOp n f x c = .ok P) : WFS n P := by
+  unfold numberOp at h; exact mk_wfs h
+
+theorem classicFrechet_add_wf (n : Nat) (x y P : PB) (hx : WF n x) (hy : WF n y)
+    (h : classicFrechet n (· + ·) x y = .ok P) : WF n P := by
+  unfold classicFrechet at h
+  exact mk_pair_wf (frechetOp_le _ add_mono2' n x y hx hy) h
+
+theorem frechetOp_mul_eq' (x y : PB) (hx : NonNeg x) (hy : NonNeg y) :
+    frechetOp (· * ·) x y = frechetOp mulPos x y := by
+  unfold frechetOp
+  rw [frechetLeftRaw_mul_eq x.left y.left hx.1 hy.1, frechetRightRaw_mul_eq x.right y.right hx.2 hy.2]
+
+/-- `classic_frechet_pbox(x, y, mul)` on non-negative operands -/
+theorem classicFrechet_mul_wf (n : Nat) (x y P : PB) (hx : WF n x) (hy : WF n y)
+    (px : NonNeg x) (py : NonNeg y) (h : classicFrechet n (· * ·) x y = .ok P) : WF n P := by
+  unfold classicFrechet at h
+  rw [frechetOp_mul_eq' x y px py] at h
+  exact mk_pair_wf (frechetOp_le _ mulPos_mono2 n x y hx hy) h
+
+theorem getLastD_eq {L : List Rat} (h : L ≠ []) :
+    L.getLastD 0 = L[L.length - 1]'(by have := List.length_pos_iff.mpr h; omega) := by
+  rw [List.getLastD_eq_getLast?, List.getLast?_eq_some_getLast h, Option.getD_some, List.getLast_eq_getElem]
+
+theorem le_getLastD {L : List Rat} (s : L.Pairwise (· ≤ ·)) {v : Rat} (hv : v ∈ L) : v ≤ L.getLastD 0 := by
+  have hne : L ≠ [] := ne_nil_of_mem hv
+  rw [getLastD_eq hne]
+  obtain ⟨i, hi, rfl⟩ := getElem_of_mem hv
+  exact sorted_get_mono s i (L.length - 1) hi (by omega) (by omega)
+
+/-- every entry of a well-formed box is at most `hi` -/
+theorem le_hi {n : Nat} {x : PB} (hx : WF n x) {v : Rat} (hv : v ∈ x.left ∨ v ∈ x.right) : v ≤ PBox.hi x := by
+  unfold PBox.hi
+  rcases hv with hv | hv
+  · obtain ⟨i, hi, rfl⟩ := getElem_of_mem hv
+    have h2 : i < x.right.length := by rw [hx.rlen, ← hx.llen]; exact hi
+    exact le_trans (forall₂_le_get hx.le i hi h2) (le_getLastD hx.rsorted (getElem_mem h2))
+  · exact le_getLastD hx.rsorted hv
+
+/-- the entries of `-P` are the negated entries of `P` -/
+theorem neg_entries {n : Nat} {x a : PB} (hx : WFS n x) (h : PBox.neg n x = .ok a) {v : Rat}
+    (hv : v ∈ a.left ∨ v ∈ a.right) : -v ∈ x.left ∨ -v ∈ x.right := by
+  unfold PBox.neg at h
+  obtain ⟨h1, h2, -, -⟩ := mk_inv h
+  have hl1 : (sortR (x.right.reverse.map (- ·))).length = n := by rw [sortR_length]; simp [hx.rlen]
+  have hl2 : (sortR (x.left.reverse.map (- ·))).length = n := by rw [sortR_length]; simp [hx.llen]
+  have key : ∀ w, (w ∈ sortR (x.right.reverse.map (- ·)) ∨ w ∈ sortR (x.left.reverse.map (- ·))) →
+      (-w ∈ x.left ∨ -w ∈ x.right) := by
+    intro w hw
+    rcases hw with hw | hw
+    · rw [(sortR_perm _).mem_iff, mem_map] at hw
+      obtain ⟨u, hu, rfl⟩ := hw
+      right; simpa using hu
+    · rw [(sortR_perm _).mem_iff, mem_map] at hw
+      obtain ⟨u, hu, rfl⟩ := hw
+      left; simpa using hu
+  apply key
+  by_cases hs : swOf true (sortR (x.right.reverse.map (- ·))) (sortR (x.left.reverse.map (- ·))) = true
+  · simp only [hs, if_true] at h1 h2
+    rw [boundSteps_eq hl2] at h1; rw [boundSteps_eq hl1] at h2
+    have e1 := Except.ok.inj h1; have e2 := Except.ok.inj h2
+    rw [← e1, ← e2] at hv
+    exact hv.symm
+  · simp only [hs, if_false] at h1 h2
+    simp only [Bool.false_eq_true, if_false] at h1 h2
+    rw [boundSteps_eq hl1] at h1; rw [boundSteps_eq hl2] at h2
+    have e1 := Except.ok.inj h1; have e2 := Except.ok.inj h2
+    rw [← e1, ← e2] at hv
+    exact hv
+
+/-- `-P` of a non-positive box is non-negative -/
+theorem neg_nonneg {n : Nat} {x a : PB} (hx : WF n x) (h0 : PBox.hi x ≤ 0) (h : PBox.neg n x = .ok a) :
+    NonNeg a := by
+  constructor
+  · intro v hv
+    have := neg_entries hx.toWFS h (Or.inl hv)
+    have := le_hi hx this
+    linarith
+  · intro v hv
+    have := neg_entries hx.toWFS h (Or.inr hv)
+    have := le_hi hx this
+    linarith
+
+/-- a box that does not straddle zero and whose upper end is positive is non-negative -/
+theorem nonneg_of_not_straddle {n : Nat} {x : PB} (hx : WF n x) (h0 : ¬ PBox.hi x ≤ 0)
+    (hs : straddlesZero x = false) : NonNeg x := by
+  have hr : x.right ≠ [] := by
+    intro he; apply h0; unfold PBox.hi; rw [he]; simp
+  have hl : x.left ≠ [] := by
+    intro he
+    have h1 := hx.llen; have h2 := hx.rlen
+    rw [he] at h1; simp at h1
+    rw [← h1] at h2
+    exact hr (length_eq_zero_iff.mp h2)
+  have hmax : 0 < maxL 0 x.right := by
+    have hlast : x.right.getLastD 0 ∈ x.right := by
+      rw [getLastD_eq hr]; exact getElem_mem _
+    have := (maxL_spec 0 x.right hr).2 _ hlast
+    unfold PBox.hi at h0
+    linarith [not_le.mp h0]
+  have hmin : 0 ≤ minL 0 x.left := by
+    unfold straddlesZero at hs
+    simp only [Bool.and_eq_false_iff, decide_eq_false_iff_not, not_lt] at hs
+    rcases hs with hs | hs
+    · exact hs
+    · exact absurd hmax (not_lt.mpr hs)
+  have hleft : ∀ v ∈ x.left, 0 ≤ v := fun v hv => le_trans hmin ((minL_spec 0 x.left hl).2 v hv)
+  refine ⟨hleft, ?_⟩
+  intro v hv
+  obtain ⟨i, hi, rfl⟩ := getElem_of_mem hv
+  have h2 : i < x.left.length := by rw [hx.llen, ← hx.rlen]; exact hi
+  exact le_trans (hleft _ (getElem_mem h2)) (forall₂_le_get hx.le i h2 hi)
+
+/-- `nagative_frechet_pbox` on operands that do not straddle zero -/
+theorem negativeFrechet_wf (n : Nat) (x y P : PB) (hx : WF n x) (hy : WF n y)
+    (sx : straddlesZero x = false) (sy : straddlesZero y = false)
+    (h : negativeFrechet n x y = .ok P) : WF n P := by
+  unfold negativeFrechet at h
+  split at h
+  · rename_i hor
+    by_cases hx0 : PBox.hi x ≤ 0
+    · by_cases hy0 : PBox.hi y ≤ 0
+      · simp only [hx0, hy0, if_true, decide_true, Bool.xor_self, Bool.false_eq_true, if_false] at h
+        obtain ⟨a, ha, h⟩ := bind_ok_inv h
+        obtain ⟨b, hb, h⟩ := bind_ok_inv h
+        obtain ⟨r, hr, h⟩ := bind_ok_inv h
+        have wr := classicFrechet_mul_wf n a b r (neg_wf n x a hx ha) (neg_wf n y b hy hb)
+          (neg_nonneg hx hx0 ha) (neg_nonneg hy hy0 hb) hr
+        cases h
+        exact wr
+      · simp only [hx0, hy0, if_true, if_false, decide_true, decide_false, Bool.xor_false, pure_bind] at h
+        obtain ⟨a, ha, h⟩ := bind_ok_inv h
+        obtain ⟨r, hr, h⟩ := bind_ok_inv h
+        have wr := classicFrechet_mul_wf n a y r (neg_wf n x a hx ha) hy
+          (neg_nonneg hx hx0 ha) (nonneg_of_not_straddle hy hy0 sy) hr
+        exact neg_wf n r P wr h
+    · have hy0 : PBox.hi y ≤ 0 := by
+        simp only [Bool.or_eq_true, decide_eq_true_eq] at hor
+        rcases hor with h1 | h1
+        · exact absurd h1 hx0
+        · exact h1
+      simp only [hx0, hy0, if_true, if_false, decide_true, decide_false, Bool.false_xor, pure_bind] at h
+      obtain ⟨b, hb, h⟩ := bind_ok_inv h
+      obtain ⟨r, hr, h⟩ := bind_ok_inv h
+      have wr := classicFrechet_mul_wf n x b r hx (neg_wf n y b hy hb)
+        (nonneg_of_not_straddle hx hx0 sx) (neg_nonneg hy hy0 hb) hr
+      exact neg_wf n r P wr h
+  · cases h
+
+theorem frechetMulNoStraddle_wf (n : Nat) (x y P : PB) (hx : WF n x) (hy : WF n y)
+    (sx : straddlesZero x = false) (sy : straddlesZero y = false)
+    (h : frechetMulNoStraddle n x y = .ok P) : WF n P := by
+  unfold frechetMulNoStraddle at h
+  split at h
+  · exact negativeFrechet_wf n x y P hx hy sx sy h
+  · rename_i hh
+    simp only [Bool.or_eq_true, decide_eq_true_eq, not_or] at hh
+    exact classicFrechet_mul_wf n x y P hx hy (nonneg_of_not_straddle hx hh.1 sx)
+      (nonneg_of_not_straddle hy hh.2 sy) h
+
+/-- the Balch product always ends in a constructor call: `n` steps, both bounds non-decreasing -/
+theorem balchprod_wfs {n : Nat} {x y P : PB} (h : balchprod n x y = .ok P) : WFS n P := by
+  unfold balchprod at h
+  split at h
+  · obtain ⟨_, _, h⟩ := bind_ok_inv h
+    obtain ⟨_, _, h⟩ := bind_ok_inv h
+    obtain ⟨_, _, h⟩ := bind_ok_inv h
+    obtain ⟨_, _, h⟩ := bind_ok_inv h
+    obtain ⟨_, _, h⟩ := bind_ok_inv h
+    obtain ⟨_, _, h⟩ := bind_ok_inv h
+    obtain ⟨_, _, h⟩ := bind_ok_inv h
+    exact numberOp_wfs h
+  · split at h
+    · obtain ⟨_, _, h⟩ := bind_ok_inv h
+      obtain ⟨_, _, h⟩ := bind_ok_inv h
+      obtain ⟨_, _, h⟩ := bind_ok_inv h
+      exact classicFrechet_wfs h
+    · cases h
+
+/-- `straddle_frechet_pbox`: naive bounds ∩ Balch product; the imposition re-establishes `left ≤ right` -/
+theorem straddleFrechet_wf (n : Nat) (x y P : PB) (h : straddleFrechet n x y = .ok P) : WF n P := by
+  unfold straddleFrechet at h
+  obtain ⟨nv, hnv, h⟩ := bind_ok_inv h
+  obtain ⟨bl, hbl, h⟩ := bind_ok_inv h
+  exact imp_wf n nv bl P (mk_wfs hnv) (balchprod_wfs hbl) h
+
+/-- `frechet_pbox_mul` -/
+theorem frechetMul_wf (n : Nat) (x y P : PB) (hx : WF n x) (hy : WF n y)
+    (h : frechetMul n x y = .ok P) : WF n P := by
+  unfold frechetMul at h
+  split at h
+  · split at h
+    · exact straddleFrechet_wf n x y P h
+    · exact straddleFrechet_wf n y x P h
+  · rename_i hh
+    simp only [Bool.or_eq_true, not_or, Bool.not_eq_true] at hh
+    exact frechetMulNoStraddle_wf n x y P hx hy hh.1 hh.2 h
+
+/-- `Pbox.mul(other, dependency)` -/
+theorem mul_wf (n : Nat) (d : Dep) (x y P : PB) (hx : WF n x) (hy : WF n y)
+    (h : PBox.mul n d x y = .ok P) : WF n P := by
+  unfold PBox.mul at h
+  cases d with
+  | f => exact frechetMul_wf n x y P hx hy h
+  | p => exact mk_pair_wf (perfectOp_le _ x y) h
+  | o => exact mk_pair_wf (oppositeOp_le _ x y) h
+  | i => exact mk_pair_wf (independentOp_le _ x y) h
+  | unknown => cases h
+
+/-- `Pbox.sub` -/
+theorem sub_wf (n : Nat) (d : Dep) (x y P : PB) (hx : WF n x) (hy : WF n y)
+    (h : PBox.sub n d x y = .ok P) : WF n P := by
+  unfold PBox.sub at h
+  obtain ⟨ny, hny, h⟩ := bind_ok_inv h
+  exact add_wf n _ x ny P hx (neg_wf n y ny hy hny) h
+
+/-- `Pbox.div` through `1 / other` -/
+theorem divC_wf (n : Nat) (d : Dep) (x y P : PB) (hx : WF n x) (hy : WF n y)
+    (h : divC n d x y = .ok P) : WF n P := by
+  unfold divC at h
+  split at h
+  · cases h
+  · rename_i r1 hr1
+    obtain ⟨r, hr, hr1⟩ := bind_ok_inv hr1
+    have wr : WF n r := recip_wf n y r hy hr
+    have wr1 : WF n r1 := numberOp_wf n _ 1 r r1 wr (mul_const_mono 1) hr1
+    exact mul_wf n _ x r1 P hx wr1 h
+
+/-- the four binary operations between two p-boxes, every dependency code -/
+theorem binopC_wf (n : Nat) (o : Op) (d : Dep) (x y P : PB) (hx : WF n x) (hy : WF n y)
+    (h : binopC n o d x y = .ok P) : WF n P := by
+  unfold binopC at h
+  cases o with
+  | div => exact divC_wf n d x y P hx hy h
+  | add => exact add_wf n d x y P hx hy h
+  | sub => exact sub_wf n d x y P hx hy h
+  | mul => exact mul_wf n d x y P hx hy h
+
+/-- `c op P` -/
+theorem numLeftC_wf (n : Nat) (o : Op) (c : Rat) (x P : PB) (hx : WF n x)
+    (h : numLeftC n o c x = .ok P) : WF n P := by
+  unfold numLeftC at h
+  cases o with
+  | div =>
+    simp only at h
+    split at h
+    · cases h
+    · rename_i q hq
+      cases h
+      obtain ⟨r, hr, hq⟩ := bind_ok_inv hq
+      exact numberOp_wf n _ c r _ (recip_wf n x r hx hr) (mul_const_mono c) hq
+  | add =>
+    simp only [numLeft] at h
+    exact numberOp_wf n _ c x P hx (Or.inl (fun a b hab => by simpa using hab)) h
+  | sub =>
+    simp only [numLeft] at h
+    obtain ⟨np, hnp, h⟩ := bind_ok_inv h
+    exact numberOp_wf n _ c np P (neg_wf n x np hx hnp) (Or.inl (fun a b hab => by simpa using hab)) h
+  | mul =>
+    simp only [numLeft] at h
+    exact numberOp_wf n _ c x P hx (mul_const_mono c) h
+
+/-! ## unary maps -/
+
+theorem tabAp_mem (t : List (Rat × Rat)) (hne : t ≠ []) (x : Rat) : tabAp t x ∈ t.map Prod.snd := by
+  induction t with
+  | nil => exact absurd rfl hne
+  | cons a u ih =>
+    obtain ⟨k0, v0⟩ := a
+    cases u with
+    | nil => simp [tabAp]
+    | cons b w =>
+      obtain ⟨k1, v1⟩ := b
+      unfold tabAp
+      split
+      · simp
+      · have := ih (by simp)
+        exact mem_cons_of_mem _ this
+
+/-- the nearest-key lookup is non-decreasing when the tabulated values are -/
+theorem tabAp_mono (t : List (Rat × Rat)) (hv : (t.map Prod.snd).Pairwise (· ≤ ·)) :
+    ∀ x y : Rat, x ≤ y → tabAp t x ≤ tabAp t y := by
+  induction t with
+  | nil => intro x y _; simp [tabAp]
+  | cons a u ih =>
+    obtain ⟨k0, v0⟩ := a
+    cases u with
+    | nil => intro x y _; simp [tabAp]
+    | cons b w =>
+      obtain ⟨k1, v1⟩ := b
+      intro x y hxy
+      simp only [map_cons, pairwise_cons] at hv
+      have hv' : (((k1, v1) :: w).map Prod.snd).Pairwise (· ≤ ·) := by
+        simp only [map_cons, pairwise_cons]; exact hv.2
+      unfold tabAp
+      by_cases h2 : 2 * y ≤ k0 + k1
+      · have h1 : 2 * x ≤ k0 + k1 := by linarith
+        simp [h1, h2]
+      · simp only [h2, if_false]
+        by_cases h1 : 2 * x ≤ k0 + k1
+        · simp only [h1, if_true]
+          have := tabAp_mem ((k1, v1) :: w) (by simp) y
+          simp only [map_cons] at this
+          exact hv.1 _ this
+        · simp only [h1, if_false]
+          exact ih hv' x y hxy
+
+/-- `exp()`, `sqrt()`, `log()` with a non-decreasing tabulated function -/
+theorem unaryK_wf (n : Nat) (k : UKind) (t : List (Rat × Rat)) (hf : ∀ a b, a ≤ b → tabAp t a ≤ tabAp t b)
+    (x P : PB) (hx : WF n x) (h : unaryK n k t x = .ok P) : WF n P := by
+  unfold unaryK at h
+  cases k with
+  | exp => exact unaryTemplate_wf n _ hf x P hx h
+  | sqrt =>
+    simp only at h
+    split at h
+    · cases h
+    · exact unaryTemplate_wf n _ hf x P hx h
+  | log =>
+    simp only at h
+    split at h
+    · cases h
+    · split at h
+      · cases h
+      · exact unaryTemplate_wf n _ hf x P hx h
+
+/-! ## the full constructor `mkN` (NaN-aware, both directions of `bound_steps_check`) -/
+
+theorem unN_some {l : List NR} {l' : List Rat} (h : unN l = some l') : l = l'.map some := by
+  induction l generalizing l' with
+  | nil => simp [unN] at h; subst h; rfl
+  | cons a t ih =>
+    cases a with
+    | none => simp [unN] at h
+    | some x =>
+      simp only [unN, Option.map_eq_some_iff] at h
+      obtain ⟨u, hu, rfl⟩ := h
+      rw [ih hu]; rfl
+
+theorem isIncreasingN_map_some (l : List Rat) : isIncreasingN (l.map some) = isIncreasing l := by
+  induction l with
+  | nil => rfl
+  | cons a t ih =>
+    cases t with
+    | nil => rfl
+    | cons b u =>
+      simp only [map_cons, isIncreasingN, isIncreasing, geN] at ih ⊢
+      rw [ih]
+
+/-- NaN anywhere in a bound of at least two entries fails `np.all(np.diff(arr) >= 0)` -/
+theorem isIncreasingN_none {l : List NR} (hn : none ∈ l) (h2 : 2 ≤ l.length) : isIncreasingN l = false := by
+  induction l with
+  | nil => cases hn
+  | cons a t ih =>
+    cases t with
+    | nil => simp at h2
+    | cons b u =>
+      simp only [isIncreasingN, Bool.and_eq_false_iff]
+      rcases mem_cons.mp hn with ha | ht
+      · left; subst ha; cases b <;> rfl
+      · cases u with
+        | nil =>
+          simp only [mem_singleton] at ht
+          left; subst ht; cases a <;> rfl
+        | cons c w => right; exact ih ht (by simp)
+
+theorem condenseN_length (n : Nat) (b : List NR) : (condenseN n b).length = n := by simp [condenseN]
+
+/-- **exact number of steps**: whatever `bound_steps_check` returns has exactly `steps` entries -/
+theorem boundStepsN_length {c : Cfg} {b b' : List NR} (h : boundStepsN c b = .ok b') : b'.length = c.steps := by
+  unfold boundStepsN at h
+  split at h
+  · cases h; exact condenseN_length _ _
+  · split at h
+    · unfold stretchN at h
+      split at h
+      · cases h
+      · cases h; simp
+    · cases h; omega
+
+/-- … and it returns for every non-empty bound -/
+theorem boundStepsN_total (c : Cfg) {b : List NR} (hb : b ≠ []) : ∃ b', boundStepsN c b = .ok b' := by
+  unfold boundStepsN
+  split
+  · exact ⟨_, rfl⟩
+  · split
+    · unfold stretchN
+      have : b.length ≠ 0 := fun h => hb (length_eq_zero_iff.mp h)
+      simp only [this, if_false]
+      exact ⟨_, rfl⟩
+    · exact ⟨_, rfl⟩
+
+theorem boundStepsN_eq {c : Cfg} {b : List NR} (h : b.length = c.steps) : boundStepsN c b = .ok b := by
+  unfold boundStepsN; simp [h]
+
+/-- what a successful call of the constructor core has established -/
+theorem mkCore_inv {c : Cfg} {l r : List NR} {P : PB} (h : mkCore c l r = .ok P) :
+    boundStepsN c l = .ok (P.left.map some) ∧ boundStepsN c r = .ok (P.right.map some) ∧
+    isIncreasing P.left = true ∧ isIncreasing P.right = true ∧ anyGt P.left P.right = false := by
+  unfold mkCore at h
+  obtain ⟨l2, hl2, h⟩ := bind_ok_inv h
+  obtain ⟨r2, hr2, h⟩ := bind_ok_inv h
+  split at h
+  · cases h
+  · split at h
+    · cases h
+    · rename_i hinc
+      split at h
+      · rename_i l' r' e1 e2
+        unfold guardLE at h
+        split at h
+        · cases h
+        · rename_i hg
+          cases h
+          have el := unN_some e1
+          have er := unN_some e2
+          subst el; subst er
+          simp only [Bool.or_eq_true, Bool.not_eq_true', not_or, Bool.not_eq_false] at hinc
+          rw [isIncreasingN_map_some, isIncreasingN_map_some] at hinc
+          exact ⟨hl2, hr2, hinc.1, hinc.2, by simpa using hg⟩
+      · cases h
+
+theorem mkCore_wf {c : Cfg} {l r : List NR} {P : PB} (h : mkCore c l r = .ok P) : WF c.steps P := by
+  obtain ⟨h1, h2, i1, i2, hg⟩ := mkCore_inv h
+  have l1 : P.left.length = c.steps := by simpa using boundStepsN_length h1
+  have l2 : P.right.length = c.steps := by simpa using boundStepsN_length h2
+  exact ⟨l1, l2, (isIncreasing_iff _).mp i1, (isIncreasing_iff _).mp i2, (anyGt_false_iff (by omega)).mp hg⟩
+
+/-- **the constructor only returns well-formed boxes**: exactly `steps` entries per bound, no NaN (the bounds
+are lists of numbers), both non-decreasing, `left ≤ right` at every step — for ANY input arrays -/
+theorem mkN_wf {c : Cfg} {lists : Bool} {l r : List NR} {P : PB} (h : mkN c lists l r = .ok P) : WF c.steps P := by
+  unfold mkN at h
+  obtain ⟨sw, -, h⟩ := bind_ok_inv h
+  split at h
+  · exact mkCore_wf h
+  · exact mkCore_wf h
+
+theorem mkCore_nan {c : Cfg} (h2 : 2 ≤ c.steps) {l r : List NR} (hl : l.length = c.steps) (hr : r.length = c.steps)
+    (hn : none ∈ l ∨ none ∈ r) : mkCore c l r = .error .Other := by
+  unfold mkCore
+  rw [boundStepsN_eq hl, boundStepsN_eq hr]
+  simp only [bind, Except.bind, hl, hr, ne_eq, not_true_eq_false, if_false]
+  have : (!isIncreasingN l || !isIncreasingN r) = true := by
+    rcases hn with hn | hn
+    · rw [isIncreasingN_none hn (by omega)]; rfl
+    · rw [isIncreasingN_none hn (by omega)]; simp
+  simp [this]
+
 end Pun.WF
